@@ -88,6 +88,8 @@ type Node struct {
 	// (called with Mu held; returns the code and log of the send_transaction response)
 	Msig   *Msig
 	OnSend func(tx string) (code uint64, log string)
+	// FailBlocks: the next n /blocks requests are answered with HTTP 500 (a transient node error)
+	FailBlocks int
 }
 
 func (n *Node) SetLatest(h uint64) {
@@ -156,6 +158,9 @@ func (n *Node) ServeHTTP(w http.ResponseWriter, r *http.Request) {
 		json.NewEncoder(w).Encode(map[string]interface{}{"latest_block_height": fmt.Sprint(n.Latest), "version": "3", "network": "test", "initial_height": "1",
 			"latest_block_hash": "00", "latest_app_hash": "00", "latest_block_time": "2021-01-01T00:00:00Z", "keep_last_states": "0", "total_slashed": "0",
 			"catching_up": false, "public_key": "Mp00", "node_id": "0", "current_emission": "0"})
+	case strings.HasSuffix(r.URL.Path, "/blocks") && n.FailBlocks > 0:
+		n.FailBlocks--
+		http.Error(w, `{"error":{"code":"500","message":"temporarily unavailable"}}`, 500)
 	case strings.HasSuffix(r.URL.Path, "/blocks"):
 		from, _ := strconv.ParseUint(r.URL.Query().Get("from_height"), 10, 64)
 		to, _ := strconv.ParseUint(r.URL.Query().Get("to_height"), 10, 64)
